@@ -326,7 +326,8 @@ impl Read for IoReader {
 //@@ end
 //@@ fn file=serde_amqp/src/read/ioread.rs impl=`~Read<'de>forIoReader<R>` name=peek_bytes id=IoReader::peek_bytes
 //@@ qmark
-//@@ subst `&self.buf[..n]` => `vstd::slice::slice_subrange(self.buf.as_slice(), 0, n)` rule=R9
+//@@ subst `&self.buf[..n]` => `vstd::slice::slice_subrange(self.buf.as_slice(), 0, n)` rule=optional-R9
+//@@ subst `Some(&self.buf)` => `Some(self.buf.as_slice())` rule=optional-R9
 //@@ end
 //@@ fn file=serde_amqp/src/read/ioread.rs impl=`~Read<'de>forIoReader<R>` name=next id=IoReader::next
 //@@ qmark
@@ -629,7 +630,8 @@ impl IoReader {
 //@@ nowhere
 //@@ param visitor : VisS
 //@@ ret Result<VisValue, Error>
-//@@ subst `visitor.visit_bytes(&__E1[..len])` => `visitor.visit_bytes_of(vstd::slice::slice_subrange(__E1.as_slice(), 0, len))` rule=R9 unless `visit_bytes`
+//@@ subst `visitor.visit_bytes(&__E1[..len])` => `visitor.visit_bytes_of(vstd::slice::slice_subrange(__E1.as_slice(), 0, len))` rule=optional-R9
+//@@ subst `visitor.visit_bytes(&__E1)` => `visitor.visit_bytes_of(__E1.as_slice())` rule=optional-R9
 //@@ subst `self.buf.drain(..len)` => `vec_drain_front(&mut self.buf, len)` rule=optional-R9
 //@@ subst `std::mem::take(&mut self.buf)` => `vec_take(&mut self.buf)` rule=optional-R9
 //@@ spec
